@@ -34,12 +34,26 @@ PROPS = {
     'C08': {'lemmas': [], 'assume': BASE + [A_PRIV, A_COUNT, A_CHAR, A_PRED, A_KANI], 'kani': ['count_ones_is_bit_sum', 'char_from_u8_is_cast', 'predicates_equal_copies'],
             'design': 'DESIGN.md section 3, C08',
             'technique': 'Verus built-in overflow / shift-range / panic-unreachable obligations on every exec function under the representation invariants'},
+    'C09': {'lemmas': [], 'support_lemmas': ['ldefs'], 'cellgens': ['layout_cells'], 'assume': BASE + [A_CHAR, A_PRED, A_KANI], 'kani': ['char_from_u8_is_cast', 'predicates_equal_copies'], 'design': 'DESIGN.md section 3, C09',
+            'technique': 'Verus relational lemmas per (layout, key) over the layout denotations derived from the real map_keycode bodies (proved equal to them); Kani discharges the predicate / char::from assumptions'},
+    'C10': {'lemmas': [], 'support_lemmas': ['ldefs'], 'cellgens': ['layout_cells'], 'assume': BASE + [A_CHAR, A_PRED, A_KANI], 'kani': ['char_from_u8_is_cast', 'predicates_equal_copies'], 'design': 'DESIGN.md section 3, C10',
+            'technique': 'Verus relational lemmas per (layout, key): CapsLock twin states, over the derived layout denotations; Kani discharges the predicate / char::from assumptions'},
+    'C11': {'lemmas': ['c11'], 'support_lemmas': ['ldefs'], 'cellgens': ['layout_cells'], 'assume': BASE + [A_CHAR, A_PRED, A_KANI], 'kani': ['char_from_u8_is_cast', 'predicates_equal_copies'], 'design': 'DESIGN.md section 3, C11',
+            'technique': 'Verus relational lemmas per (layout, key): equal five facts imply equal output, over the derived layout denotations; predicate groupings proved on the derived copies and equated with the compiled predicates by Kani'},
+    'C12': {'lemmas': [], 'support_lemmas': ['ldefs'], 'cellgens': ['layout_cells'], 'assume': BASE + [A_CHAR, A_PRED, A_KANI], 'kani': ['char_from_u8_is_cast', 'predicates_equal_copies'], 'design': 'DESIGN.md section 3, C12',
+            'technique': 'Verus existential lemmas per (layout, character) with witnesses hinted by the real code and checked by Verus over the derived layout denotations'},
+    'C15': {'lemmas': [], 'support_lemmas': ['ldefs'], 'cellgens': ['layout_cells'], 'assume': BASE + [A_CHAR, A_PRED, A_KANI], 'kani': ['char_from_u8_is_cast', 'predicates_equal_copies'], 'design': 'DESIGN.md section 3, C15',
+            'technique': 'Verus lemmas per (layout, numpad/editing key) for all modifier states and modes over the derived layout denotations'},
+    'C16': {'lemmas': [], 'support_lemmas': ['ldefs'], 'cellgens': ['layout_cells'], 'assume': BASE + [A_CHAR, A_PRED, A_KANI], 'kani': ['char_from_u8_is_cast', 'predicates_equal_copies'], 'design': 'DESIGN.md section 3, C16',
+            'technique': 'Verus lemmas per (layout, key): 52 character-less keys raw in every state; raw results are the key itself or its NumLock-off alias, over the derived layout denotations'},
     'C13': {'lemmas': ['c13'], 'cellgens': ['xlat_cells'], 'assume': BASE + [A_PRIV, A_REF_XL], 'kani': [], 'design': 'DESIGN.md section 3, C13',
             'technique': 'Verus lemmas relating the derived denotations of the six real tables through the i8042 translation table (forward, and backward via a verified inverse map) + event-level lemma over the two automaton contracts + verified client'},
     'C14': {'lemmas': ['c14'], 'assume': BASE + [A_PRIV], 'kani': [], 'design': 'DESIGN.md section 3, C14',
             'technique': 'Verus postcondition r == decode_out(layout, mods, mode, ev) on the real process_keyevent, generic in the layout via a ghost trait member + verified clients for mode/layout changes'},
     'C19': {'lemmas': ['c19'], 'cellgens': ['injectivity'], 'assume': BASE + [A_PRIV], 'kani': [], 'design': 'DESIGN.md section 3, C19',
             'technique': 'Verus: injectivity of the six derived table denotations via verified inverse maps (hint from the real code, checked by Verus); make/break pairing lemmas over the automaton contracts + verified clients'},
+    'C17': {'lemmas': ['c17'], 'cellgens': ['anylayout_cells'], 'assume': BASE + [A_CHAR, A_PRED, A_KANI], 'kani': ['char_from_u8_is_cast', 'predicates_equal_copies'], 'design': 'DESIGN.md section 3, C17',
+            'technique': 'Verus lemmas per variant and wrapper form over the denotations of the two real AnyLayout::map_keycode impls (derived from their bodies, proved equal to them) + verified client'},
     'C18': {'lemmas': ['c18'], 'assume': BASE + [A_PRIV, A_COUNT, A_KANI], 'kani': ['count_ones_is_bit_sum'], 'design': 'DESIGN.md section 3, C18',
             'technique': 'Verus frame postconditions on all nine Keyboard methods (generic in S, L) + verified simulation clients: Keyboard vs three separate stages'},
 }
